@@ -287,6 +287,11 @@ def run(ctx: Ctx, tier: str) -> Result:
             call_, idx_ = None, None
             if isinstance(v_, ast.Subscript) and isinstance(v_.value, ast.Call):
                 call_, idx_ = v_.value, norm(v_.slice)
+            elif isinstance(v_, ast.Attribute) and isinstance(v_.value, ast.Call):
+                # a named position of a NamedTuple result
+                from .. import normalise as _nz
+                if v_.attr in _nz.NT_FIELDS:
+                    call_, idx_ = v_.value, str(_nz.NT_FIELDS[v_.attr])
             elif isinstance(v_, ast.Name):
                 bs_ = [b for k, b in t.local_bindings(evx[0], v_.id) if k == "assign"]
                 if len(bs_) == 1 and isinstance(bs_[0][1], ast.Call):
